@@ -185,7 +185,7 @@ pub const PROPS: &[PropSpec] = &[
         id: "C14",
         engine: "e5",
         mix: &[],
-        classes: &["dispatch/", "ctx/leak:handler-dispatch", "lifecycle/processed-after-replaced", "service/panic"],
+        classes: &["dispatch/", "ctx/leak:handler-dispatch", "lifecycle/processed-after-replaced", "lifecycle/spurious-stop", "service/panic"],
         nontrivial: &[&["dispatch:counter-checked"], &["handler:burst", "handler:unregistered", "handler:closure-error"]],
         must_reach: &["handler:registered", "handler:burst", "dispatch:counter-checked", "output:checked", "site:engine.idle"],
         quick_runs: 4000,
